@@ -23,10 +23,13 @@ META = dict(
                "comparability is order-independent; for numeric operands the seven operators are mutually consistent "
                "(exactly one of < = >, != is not =, <= is < or =, >= is > or =, == is =) whatever the conversion does; "
                "the result equals the exact comparison of the physical quantities whenever the unit conversion incurs no "
-               "rounding, and always for equal units. Full exactness is refuted in Lean by concrete witnesses "
-               "(C21_exact_counterexample, C21_total_counterexample) and recorded as known findings.",
+               "rounding, and always for equal units; comparable units always yield an answer when all units of a quantity "
+               "are pint-convertible (C21_total; the table fact is C20's table_convertible). Full exactness is refuted in "
+               "Lean by concrete witnesses (C21_exact_counterexample) and recorded as a known finding.",
     level_note="Partial: exactness holds only under the explicit hypothesis that pint's Decimal conversion of the second "
-               "operand is exact (C21_exact_partial); '%' vs 'mol%' raises. The model follows the code with "
+               "operand is exact (C21_exact_partial); '%' vs 'mol%' raises on trees without "
+               "fixes/C20-units-molpercent-and-simulate-conversion.diff (finding kept, not required to reproduce). "
+               "The model follows the code with "
                "fixes/C21-operator-consistency-and-symmetry.diff; on the unrepaired tree the check reports a violation "
                "(operators inconsistent / comparability asymmetric). Trusted: Lean kernel, the translator and harness, "
                "the model of Decimal/pint arithmetic (validated differentially). NaN/Infinity/non-ASCII digits, "
@@ -37,7 +40,7 @@ META = dict(
 MODULE = "OPM.Properties.C21"
 REQUIRED = ["OPM.C21.areComparable_symm", "OPM.C21.operators_consistent", "OPM.C21.ne_is_not_eq",
             "OPM.C21.exact_same_unit", "OPM.C21.C21_exact_partial", "OPM.C21.C21_exact_counterexample",
-            "OPM.C21.C21_total_counterexample", "OPM.C21.table_WF", "OPM.C21.table_comparable_symm"]
+            "OPM.C21.C21_total", "OPM.C21.C21_total_counterexample", "OPM.C21.table_WF", "OPM.C21.table_comparable_symm"]
 OPS = ["<", "<=", "=", "==", ">", ">=", "!="]
 
 # Exact physical definitions, written down independently of the code (value_in_base = v*scale + offset;
